@@ -490,6 +490,25 @@ func utf8OperatorRule(o *Ob) {
 		vs := e.XsAt(r, nm, nm.Common().Args[0])
 		o.Check(len(vs) == 1 && vs[0] == m.ty, "type|"+m.op, "the "+m.op+" token must become match type "+m.ty+", becomes "+strings.Join(vs, " | "), nm)
 	}
+	// unquoting: a quoted token is read with strconv.Unquote (the inverse of the printer's strconv.Quote) and is
+	// refused exactly when the result is not valid UTF-8; an unquoted token is taken as it is
+	{
+		tq := kind("tokenQuoted")
+		uf := o.Fn("(am/matcher/parse.token).unquote")
+		o.Site(fnFirst(uf), "token.unquote")
+		tv := "&t:am/matcher/parse.token"
+		quoted := LRe(`\((&t:am/matcher/parse\.token|recv)\.kind == `+tq+`\)`, true)
+		uq := `strconv\.Unquote\((&t:am/matcher/parse\.token|recv)\.value\)`
+		uOK := LRe(`\(`+uq+`#1 == nil\)`, true)
+		valid := LRe(`unicode/utf8\.ValidString\(`+uq+`#0\)`, true)
+		_ = tv
+		o.Table(uf, "unquote", []Row{
+			{Name: "unquoted token", Assume: A(quoted.Neg()), Ret: [][]string{Vals("~(&t:am/matcher/parse\\.token|recv)\\.value"), Vals("nil")}},
+			{Name: "bad quoting", Assume: A(quoted, uOK.Neg()), Ret: [][]string{Vals(`""`), Vals("~" + uq + "#1", "~fmt\\.Errorf\\(.*")}},
+			{Name: "invalid UTF-8", Assume: A(quoted, uOK, valid.Neg()), Ret: [][]string{Vals(`""`), Vals(anyErr)}},
+			{Name: "valid quoted text", Assume: A(quoted, uOK, valid), Ret: [][]string{Vals("~" + uq + "#0"), Vals("nil")}},
+		})
+	}
 	// name and value: the unquoted first and third token
 	uq := e.Calls(pm, "(am/matcher/parse.token).unquote")
 	if o.Check(len(uq) == 2, "unquote", "name and value must each be unquoted once", nm) {
